@@ -55,6 +55,7 @@ class Vocab:
     def __init__(self, model, names=None, allow_dot=True, crowd=False):
         self.m = model
         self.names = list(names or NAME_POOL)
+        self.crowd = bool(crowd)
         if crowd:
             self.names = self.names + CROWD_NAMES   # many siblings in one directory / long result lists
         if not allow_dot:
@@ -84,7 +85,8 @@ class Vocab:
             return [a for a in v[1] if a not in self.alias_names]
         if v[0] == "digits":
             pre, width = v[1], v[2]
-            return [pre + str(n).zfill(width) for n in VERSION_NUMS if len(str(n)) <= width]
+            nums = VERSION_NUMS + (list(range(12, 75)) if self.crowd else [])
+            return [pre + str(n).zfill(width) for n in sorted(set(nums)) if len(str(n)) <= width]
         if v[0] == "free":
             if self.file_name_only(type_name, key):
                 return self.pair_names + self.names[:3]   # few values, mostly separator pairs
